@@ -506,3 +506,47 @@ subgraph_interactions = FunctionContract(
             ("subgraph.interactions[interaction_type].append(interaction)", "subgraph.interactions[interaction_type] = [interaction]")],
 )
 CONTRACTS.append(subgraph_interactions)
+
+
+# ------------------------------------------------------------------ Molecule.edges_between: the bonds between two sets of atoms
+EBPair = TTuple(Key, Key)
+
+
+def setup_eb(cx):
+    s1, s2 = cx.val('S1', TSet(Key)), cx.val('S2', TSet(Key))
+    cx.spec_env.update(S1=s1, S2=s2)
+    adj = cx.uf('adj', [Key], TSet(Key))                    # self[node]: the neighbours of an atom
+    self = Obj('Molecule', __getitem__=Builtin(lambda e, n: SV(TSet(Key), adj(to_z3(n, Key))), 'self[]'))
+    return dict(self=self, n_bunch1=s1, n_bunch2=s2, data=False)
+
+
+EB_INV = [
+    "len(g_at) == len(__yielded__)",
+    # every pair yielded so far is a bond from the first set into the second ...
+    "forall(lambda p: implies(0 <= p and p < len(__yielded__), __yielded__[p][0] in S1 and __yielded__[p][1] in S2 and "
+    "   __yielded__[p][1] in adj(__yielded__[p][0]) and g_at[p] == __yielded__[p] and __yielded__[p] in g_pos and g_pos[__yielded__[p]] == p))",
+    # ... and no pair was yielded twice
+    "forall(lambda k: implies(k in g_pos, 0 <= g_pos[k] and g_pos[k] < len(__yielded__) and __yielded__[g_pos[k]] == k), EBPair)",
+]
+edges_between = FunctionContract(
+    F, 'Molecule.edges_between', 'C12', short='Molecule.edges_between[pairs]', setup=setup_eb, spec_env=dict(EBPair=EBPair, Key=Key),
+    result_ty=TSeq(EBPair), locals=dict(g_at=TSeq(EBPair), g_pos=TMap(EBPair, TInt)), ghost_at={'entry': "g_at = []\ng_pos = {}"},
+    ensures=[x.replace('__yielded__', 'result') for x in EB_INV] + [
+        # every bond from an atom of the first set to an atom of the second is yielded (once, by the clause above)
+        "forall(lambda a, b: implies(a in S1 and b in S2 and b in adj(a), (a, b) in g_pos), Key, Key)",
+    ],
+    loops={
+        'L1': LoopSpec(inv=EB_INV + [
+            "forall(lambda a, b: implies(a in S1 and _posL1(a) < _i and b in S2 and b in adj(a), (a, b) in g_pos), Key, Key)",
+            "forall(lambda k: implies(k in g_pos, k[0] in S1 and _posL1(k[0]) < _i), EBPair)"],
+            modifies=['__yielded__', 'g_at', 'g_pos']),
+        'L1.1': LoopSpec(inv=EB_INV + [
+            "forall(lambda a, b: implies(a in S1 and _posL1(a) < _iL1 and b in S2 and b in adj(a), (a, b) in g_pos), Key, Key)",
+            "forall(lambda b: implies(b in cross and _posL1_1(b) < _i, (node1, b) in g_pos), Key)",
+            "forall(lambda k: implies(k in g_pos, k[0] in S1 and (_posL1(k[0]) < _iL1 or (k[0] == node1 and k[1] in cross and _posL1_1(k[1]) < _i))), EBPair)"],
+            modifies=['__yielded__', 'g_at', 'g_pos'],
+            ghost_end="g_at.append((node1, node2))\ng_pos[(node1, node2)] = len(g_at) - 1"),
+    },
+    canary=[("cross = set_2 & set(self[node1])", "cross = set_2"), ("yield (node1, node2)", "yield (node2, node1)")],
+)
+CONTRACTS.append(edges_between)
